@@ -332,6 +332,12 @@ class E3Check:
             seen_sig.add(key)
             if v0.get("kind") == "stuck" and b["reproduced"].startswith("0/"):
                 rep.notes.append("a stuck witness did not reproduce on replay and is not reported as a violation: " + v0["what"])
+                try:       # kept for triage only (ignored directory, nothing depends on it)
+                    td = os.path.join(VERIF, ".build", "unreproduced")
+                    os.makedirs(td, exist_ok=True)
+                    json.dump(b, open(os.path.join(td, "%s-%d-%d.json" % (self.prop, os.getpid(), w)), "w"))
+                except Exception:
+                    pass
                 continue
             rep.add_violation(core.Violation(self.prop, "%s [reproduced %s, outcome=%s]" % (v0["what"], b["reproduced"], b["outcome"]), b, ext="json"))
         rep.assumptions += list(self.assumptions)
